@@ -99,6 +99,25 @@ def gen(rng, knobs):
                 g["limit"] = rng.choice([0, 1, 2, ml - 1, ml, ml + 1, 10 ** 9])
             fs.append(g)
         h.ops.append(["sub", fs])
+    if rng.random() < 0.12:
+        # a limit on a conjunction of two tag names, where each single condition has many NEWER matches that fail
+        # the other one: the limit counts results, not index hits
+        pk = h.pub(1)
+        m = rng.randint(1, 4)
+        nlim = rng.choice([1, 2, 3, min(ml, 5)])
+        both = [evgen.make(0, kind=1, created_at=histgen.T0 - 500 - i, tags=[["t", "nostr"], ["p", pk]], content="both%d" % i)
+                for i in range(m)]
+        only_t = [evgen.make(0, kind=1, created_at=histgen.T0 - 100 - i, tags=[["t", "nostr"]], content="t%d" % i)
+                  for i in range(nlim + rng.choice([0, 1, 3]))]
+        only_p = [evgen.make(2, kind=1, created_at=histgen.T0 - 200 - i, tags=[["p", pk]], content="p%d" % i)
+                  for i in range(nlim + rng.choice([0, 1, 3]))]
+        extra = both + only_t + only_p
+        rng.shuffle(extra)
+        for e in extra:
+            h.events.append(e)
+            h.ops.insert(0, ["add", e])
+        h.ops.append(["sub", [{"#t": ["nostr"], "#p": [pk], "limit": nlim}]])
+        h.ops.append(["sub", [{"#t": ["nostr"], "#p": [pk], "kinds": [1], "limit": nlim}]])
     # the relay's own queries (collector passes, look-ups by id, unlimited internal scans) run in between:
     # their limits are theirs, a client's REQ keeps its own cap whatever ran before it
     n_add = sum(1 for o in h.ops if o[0] == "add")
